@@ -1067,6 +1067,8 @@ def run(ctx):
         stream_validate_device(ctx, drv, cfgmod, env)
         stream_update_merge(ctx, drv, cfgmod, env)
         stream_coincidences(ctx, drv, cfgmod, env, (saved_cfg, saved_defaults))
+        from . import c19_r6     # growth 6: fixed blocks for the size / asymmetry / shortcut input classes
+        c19_r6.run_all(ctx, drv, cfgmod, env, (saved_cfg, saved_defaults))
         nseq = ctx.n(4000, 30000)
         for s in range(nseq):
             rng = ctx.rng.fork(s)
@@ -1098,6 +1100,11 @@ def replay(ctx, rep):
     try:
         if "ops" in case:
             run_sequence(ctx, drv, cfgmod, case["ops"], case["init"], case.get("env") or env, (saved_cfg, saved_defaults), env)
+        elif str(case.get("stream", "")).startswith("r6-"):
+            from . import c19_r6
+            c19_r6.validate_two_digit(ctx, drv, cfgmod, env)
+            c19_r6.two_stores(ctx, cfgmod, (saved_cfg, saved_defaults))
+            c19_r6.non_mapping_arg(ctx, cfgmod, (saved_cfg, saved_defaults))
         elif case.get("stream") == "validate_device":
             stream_validate_device(ctx, drv, cfgmod, env)
         elif case.get("stream") == "initialize":
